@@ -1003,6 +1003,32 @@ func ruleSyncArm(w *World, r *Report, pfx string) {
 			}
 			if gos == 1 && rng {
 				okSW = true
+				// on every path through the loop body: exactly one launch - a column of any length,
+				// also a single entry, needs its distributor (the entry's Format blocks on it)
+				var body *ssa.BasicBlock
+				for _, sc := range l.Header.Succs {
+					if l.Blocks[sc] {
+						body = sc
+					}
+				}
+				if body != nil {
+					hdr := l.Header
+					w.enumPaths(syncWidthFn, pathOpts{Start: body, StopAt: func(b *ssa.BasicBlock) bool { return b == hdr }}, func(p *Path) {
+						n := 0
+						for _, ev := range p.Events {
+							if g, ok := ev.In.(*ssa.Go); ok {
+								for _, t := range w.goTargets(g) {
+									if t == dist {
+										n++
+									}
+								}
+							}
+						}
+						if p.Exit != "stop" || n != 1 {
+							okSW = false
+						}
+					})
+				}
 			}
 		}
 		r.Check(okSW, rule, "distributor launch", w.pos(syncWidthFn.Pos()), "one distributor per column", "not exactly one distributor goroutine per column of the matrix")
